@@ -290,7 +290,7 @@ fn replay(args: &[String]) -> Result<i32, String> {
     let case = checks::Case { prop: prop.clone(), n, ctor: g(2), recipe: g(3), filling: g(4), act: g(5), fault: g(6), extra: g(7) };
     let r = match prop.as_str() {
         _ if case.act == "zst" => with_n!(n, [zst::replay_zst], &case),
-        _ if case.act == "huge-full" => c19::replay_c19(&case),
+        _ if case.act == "huge-full" || case.act == "huge-iter" => c19::replay_c19(&case),
         "C01" | "C02" | "C11" | "C04" if case.extra == "io" => with_n!(n, [io::replay_u8_twin], &case),
         "C14" | "C17" if case.extra.starts_with("utf8") => with_n!(n, [io::replay_utf8], &case),
         "C17" if case.extra == "io-alloc" => with_n!(n, [io::replay_io], &case),
